@@ -7,6 +7,8 @@ import (
 	"verif/fw"
 
 	_ "verif/checks/c01"
+	_ "verif/checks/c02"
+	_ "verif/checks/c05"
 )
 
 func main() {
